@@ -83,16 +83,86 @@ func honestCurrent(r *vhlib.Rand) rv {
 			Hv = upTo(r, Hv)
 		}
 	}
+	// The host's validators admit any relation between the missed and the valid
+	// payouts of a contract (validateContractFormation does not look at the renter
+	// outputs at all; a renewal only ties the void to the host's burn), so the
+	// current revision is general: missed renter <, =, > valid renter; missed host
+	// <= valid host; void 0, the host's burn, or whatever balances the sums.
+	Rm := new(big.Int).Set(R)
+	switch r.Intn(20) {
+	case 0, 1, 2, 3, 4, 5: // missed renter below valid renter
+		d := vhlib.Pick(r, bi(1), bi(int64(1+r.Intn(1000))), upTo(r, R), new(big.Int).Rsh(R, 1))
+		if d.Cmp(R) > 0 {
+			d = new(big.Int).Set(R)
+		}
+		Rm = sub(R, d)
+	case 6, 7, 8, 9: // missed renter above valid renter
+		Rm = add(R, vhlib.Pick(r, bi(1), bi(int64(1+r.Intn(1000))), upTo(r, Hv)))
+		if Rm.Cmp(two128) >= 0 {
+			Rm = new(big.Int).Set(R)
+		}
+	}
 	Hm := upTo(r, Hv)
+	if r.Chance(1, 3) {
+		Hm = new(big.Int).Set(Hv) // fresh formation: host missed = host valid
+	}
+	void := sub(Hv, Hm) // a renewal's void output: the host's burn
+	switch r.Intn(6) {
+	case 0: // balance the two sums (what consensus requires)
+		if v := sub(add(R, Hv), add(Rm, Hm)); v.Sign() >= 0 {
+			void = v
+		}
+	case 1:
+		void = bi(0)
+	}
 	no := pickU64(r, 0, 1, 5, 1000, math.MaxUint64-2, math.MaxUint64-1)
 	ws := pickU64(r, 0, 100, 5000, math.MaxUint64-10)
 	c := rv{No: no, WS: ws, WE: ws + pickU64(r, 0, 1, 144), UH: 10, UC: 10, FS: pickU64(r, 0, 1<<22, 1<<40), Root: r.Intn(3),
 		V: []out{{1, cur(R)}, {2, cur(Hv)}},
-		M: []out{{1, cur(R)}, {2, cur(Hm)}, {0, cur(sub(Hv, Hm))}}}
+		M: []out{{1, cur(Rm)}, {2, cur(Hm)}, {0, cur(void)}}}
 	if r.Chance(1, 6) { // two missed outputs (cleared-style contracts)
-		c.M = []out{{1, cur(R)}, {2, cur(Hv)}}
+		c.M = []out{{1, cur(Rm)}, {2, cur(Hv)}}
 	}
 	return c
+}
+
+// countCur records the shape of the current revision of a case in the
+// distribution (evidence): relation of the renter's missed to its valid payout.
+func countCur(tr *vhlib.Trace, fam string, c rv) {
+	if len(c.V) == 0 || len(c.M) == 0 {
+		tr.Count(fam + "cur_missing_renter_output")
+		return
+	}
+	switch c.M[0].V.Cmp(c.V[0].V) {
+	case -1:
+		tr.Count(fam + "cur_missed_lt_valid")
+	case 0:
+		tr.Count(fam + "cur_missed_eq_valid")
+	default:
+		tr.Count(fam + "cur_missed_gt_valid")
+	}
+	if len(c.V) > 1 && len(c.M) > 1 && c.M[1].V.Cmp(c.V[1].V) < 0 {
+		tr.Count(fam + "cur_host_missed_lt_valid")
+	}
+	if len(c.V) != 2 || len(c.M) != 3 {
+		tr.Count(fam + "cur_unusual_output_count")
+	}
+}
+
+// balanceMissed sets the last missed output of p so that the missed sum of the
+// current revision is preserved (mod 2^128).
+func balanceMissed(p *rv, c rv) {
+	if len(p.M) == 0 {
+		return
+	}
+	total, rest := bi(0), bi(0)
+	for _, o := range c.M {
+		total = add(total, bigOf(o.V))
+	}
+	for _, o := range p.M[:len(p.M)-1] {
+		rest = add(rest, bigOf(o.V))
+	}
+	p.M[len(p.M)-1].V = cur(sub(total, rest))
 }
 
 func setV(os []out, i int, v *big.Int) {
@@ -227,10 +297,15 @@ func genC07(tr *vhlib.Trace, r *vhlib.Rand) {
 	if r.Chance(1, 7) { // unusual shapes: 0..4 outputs
 		c = shape(r, r.Intn(5), r.Intn(5))
 	}
+	kind := r.Intn(100)
+	// the program and payment validators need equal renter payouts in the current revision to accept
+	// anything: keep the general shape for a third of their cases only
+	if kind >= 30 && kind < 68 && len(c.V) > 0 && len(c.M) > 0 && c.M[0].V != c.V[0].V && r.Chance(2, 3) {
+		c.M[0].V = c.V[0].V
+	}
 	R, Hv, Hm := getV(c.V, 0), getV(c.V, 1), getV(c.M, 1)
 	p := c.clone()
 	p.No = c.No + pickU64(r, 1, 1, 1, 2, 1000)
-	kind := r.Intn(100)
 	mutateBoth := func() {
 		for i, n := 0, nMut(r); i < n; i++ {
 			if r.Chance(1, 5) {
@@ -245,6 +320,14 @@ func genC07(tr *vhlib.Trace, r *vhlib.Rand) {
 		pay := upTo(r, R)
 		if r.Chance(1, 4) {
 			pay = bi(int64(r.Intn(50)))
+		}
+		if d := sub(R, getV(c.M, 0)); d.Sign() > 0 && r.Chance(1, 2) {
+			// current missed renter payout below the valid one: a payment of at least the difference is acceptable,
+			// a smaller one must be rejected (renter missed payout would increase)
+			pay = add(d, vhlib.Pick(r, bi(-1), bi(0), bi(0), bi(1), bi(int64(r.Intn(50)))))
+			if pay.Sign() < 0 {
+				pay = bi(0)
+			}
 		}
 		coll := upTo(r, Hm)
 		if r.Chance(1, 4) {
@@ -261,11 +344,7 @@ func genC07(tr *vhlib.Trace, r *vhlib.Rand) {
 		setV(p.V, 1, add(Hv, t))
 		setV(p.M, 0, sub(R, t))
 		setV(p.M, 1, sub(Hm, b))
-		if len(p.M) > 2 {
-			setV(p.M, 2, add(getV(c.M, 2), add(t, b)))
-		} else {
-			setV(p.M, 1, add(Hm, t)) // two missed outputs: the payment goes to the host
-		}
+		balanceMissed(&p, c) // three outputs: the void takes the rest; two: the host does
 		mutateBoth()
 		if r.Chance(1, 12) {
 			pay = near(r, pay)
@@ -279,6 +358,7 @@ func genC07(tr *vhlib.Trace, r *vhlib.Rand) {
 		if r.Chance(1, 40) {
 			coll = pickEdge(r)
 		}
+		countCur(tr, "v:", c)
 		doVRev(tr, c, p, cur(pay), cur(coll))
 	case kind < 50: // ValidateProgramRevision: burn b out of the host's missed payout into the void
 		storage, coll := upTo(r, Hm), bi(0)
@@ -303,6 +383,7 @@ func genC07(tr *vhlib.Trace, r *vhlib.Rand) {
 		if r.Chance(1, 25) {
 			storage, coll = pickEdge(r), pickEdge(r)
 		}
+		countCur(tr, "v:", c)
 		doVProg(tr, c, p, cur(storage), cur(coll))
 	case kind < 68: // ValidatePaymentRevision
 		pay := upTo(r, R)
@@ -320,6 +401,7 @@ func genC07(tr *vhlib.Trace, r *vhlib.Rand) {
 		if r.Chance(1, 25) {
 			pay = pickEdge(r)
 		}
+		countCur(tr, "v:", c)
 		doVPay(tr, c, p, cur(pay))
 	case kind < 84: // ValidateClearingRevision
 		pay := upTo(r, R)
@@ -337,9 +419,15 @@ func genC07(tr *vhlib.Trace, r *vhlib.Rand) {
 		if r.Chance(1, 10) {
 			pay = near(r, pay)
 		}
+		countCur(tr, "v:", c)
 		doVClr(tr, c, p, cur(pay))
 	case kind < 90: // validateStdRevision alone
+		if r.Chance(1, 2) { // a proposal with equal renter payouts whatever the current revision looks like
+			setV(p.M, 0, getV(p.V, 0))
+			balanceMissed(&p, c)
+		}
 		mutateBoth()
+		countCur(tr, "v:", c)
 		doVStd(tr, c, p)
 	case kind < 96: // Revise
 		for i, n := 0, nMut(r); i < n; i++ {
@@ -713,19 +801,37 @@ func genSite(tr *vhlib.Trace, r *vhlib.Rand) {
 			k.act = 0 // appending a 4 MiB sector is slow
 		}
 	}
-	// current revision: renter R, host valid Hv, host missed Hm, void
+	// current revision: renter valid R / missed Rm, host valid Hv / missed Hm, void.  A contract formed by a
+	// hostile renter can have any relation between the renter's missed and valid payout (formation
+	// validation only looks at the host and void outputs), and any void value after a renewal.
 	R := add(pow2(40), amount(r))
 	Hv := add(pow2(34), amount(r))
 	if add(R, Hv).Cmp(two128) >= 0 {
 		R, Hv = pow2(100), pow2(99)
 	}
+	Rm := new(big.Int).Set(R)
+	switch r.Intn(10) {
+	case 0, 1, 2:
+		Rm = sub(R, vhlib.Pick(r, bi(1), bi(int64(1+r.Intn(2000))), pow2(20), new(big.Int).Rsh(R, 1)))
+	case 3, 4:
+		Rm = add(R, vhlib.Pick(r, bi(1), bi(int64(1+r.Intn(2000))), pow2(33)))
+	}
 	Hm := add(pow2(33), upTo(r, sub(Hv, pow2(33))))
+	if r.Chance(1, 4) {
+		Hm = new(big.Int).Set(Hv)
+	}
+	void := sub(Hv, Hm)
+	if r.Chance(1, 5) {
+		if v := sub(add(R, Hv), add(Rm, Hm)); v.Sign() >= 0 {
+			void = v
+		}
+	}
 	c := rv{No: pickU64(r, 1, 5, 1000, math.MaxUint64-2, math.MaxUint64-1), WS: k.h + 100, WE: k.h + 244, UH: 10, UC: 10,
 		FS: uint64(1+r.Intn(3)) * (1 << 22), Root: 1 + r.Intn(2),
 		V: []out{{1, cur(R)}, {2, cur(Hv)}},
-		M: []out{{1, cur(R)}, {2, cur(Hm)}, {0, cur(sub(Hv, Hm))}}}
+		M: []out{{1, cur(Rm)}, {2, cur(Hm)}, {0, cur(void)}}}
 	if strings.HasPrefix(k.op, "s3") && k.op != "s3exec" && r.Chance(1, 6) {
-		c.M = []out{{1, cur(R)}, {2, cur(Hv)}}
+		c.M = []out{{1, cur(Rm)}, {2, cur(Hv)}}
 		Hm = Hv
 	}
 	k.c = c
@@ -753,7 +859,7 @@ func genSite(tr *vhlib.Trace, r *vhlib.Rand) {
 		setV(p.V, 1, add(Hv, t))
 		setV(p.M, 0, sub(R, t))
 		setV(p.M, 1, sub(Hm, b))
-		setV(p.M, 2, add(getV(c.M, 2), add(t, b)))
+		balanceMissed(&p, c)
 	case "s3pay", "s3fund":
 		if r.Chance(2, 3) {
 			t = add(t, amount(r).Rsh(amount(r), 3)) // the part that funds the account
@@ -765,9 +871,15 @@ func genSite(tr *vhlib.Trace, r *vhlib.Rand) {
 		setV(p.V, 1, add(Hv, t))
 		setV(p.M, 0, sub(R, t))
 		setV(p.M, 1, add(Hm, t))
+		if len(p.M) > 2 {
+			balanceMissed(&p, c)
+		}
 	case "s3exec":
+		if r.Chance(1, 2) {
+			setV(p.M, 0, R) // equal renter payouts, as every accepted revision has
+		}
 		setV(p.M, 1, sub(Hm, b))
-		setV(p.M, 2, add(getV(c.M, 2), b))
+		balanceMissed(&p, c)
 	}
 	// hostile changes, one at a time
 	bump := func(l []out, i int, d int64) {
@@ -854,6 +966,7 @@ func genSite(tr *vhlib.Trace, r *vhlib.Rand) {
 		mutate(r, &p, k.c)
 	}
 	k.p = p
+	countCur(tr, "s:", k.c)
 	doSite(tr, k)
 }
 
@@ -883,7 +996,14 @@ func TestEngine(t *testing.T) {
 	doSignSites(tr)
 	for i := 0; i < cfg.N; i++ {
 		if r.Intn(1000) < siteShare {
-			genSite(tr, r)
+			switch x := r.Intn(10); { // single-RPC site cases and multi-RPC sessions
+			case x < 2:
+				genQ2(tr, r)
+			case x < 3:
+				genQ3(tr, r)
+			default:
+				genSite(tr, r)
+			}
 			continue
 		}
 		switch x := r.Intn(1000); {
